@@ -527,6 +527,12 @@ func foreignAccess(fset *token.FileSet, file, typ string, decls map[string]*ast.
 		return append(res, "cannot read "+dir)
 	}
 
+	// field names other struct types of the package declare as well: a selector with such a name in a function that
+	// never mentions the type is taken to be about the other struct (no type information is used)
+	var files []*ast.File
+
+	declaredElsewhere := map[string]bool{}
+
 	for _, ent := range ents {
 		n := ent.Name()
 		if ent.IsDir() || !strings.HasSuffix(n, ".go") || strings.HasSuffix(n, "_test.go") ||
@@ -540,6 +546,29 @@ func foreignAccess(fset *token.FileSet, file, typ string, decls map[string]*ast.
 
 			continue
 		}
+
+		files = append(files, f)
+
+		ast.Inspect(f, func(nd ast.Node) bool {
+			ts, ok := nd.(*ast.TypeSpec)
+			if !ok || ts.Name.Name == typ {
+				return true
+			}
+
+			if st, isStruct := ts.Type.(*ast.StructType); isStruct {
+				for _, fld := range st.Fields.List {
+					for _, nm := range fld.Names {
+						declaredElsewhere[nm.Name] = true
+					}
+				}
+			}
+
+			return true
+		})
+	}
+
+	for _, f := range files {
+		n := filepath.Base(fset.Position(f.Pos()).Filename)
 
 		for _, d := range f.Decls {
 			fd, ok := d.(*ast.FuncDecl)
@@ -561,6 +590,15 @@ func foreignAccess(fset *token.FileSet, file, typ string, decls map[string]*ast.
 			}
 
 			inside := own && (entry[fd.Name.Name] || touches[fd.Name.Name])
+			mentions := false
+
+			ast.Inspect(fd, func(nd ast.Node) bool {
+				if id, ok := nd.(*ast.Ident); ok && id.Name == typ {
+					mentions = true
+				}
+
+				return true
+			})
 
 			ast.Inspect(fd.Body, func(nd ast.Node) bool {
 				sel, ok := nd.(*ast.SelectorExpr)
@@ -569,7 +607,8 @@ func foreignAccess(fset *token.FileSet, file, typ string, decls map[string]*ast.
 				}
 
 				switch {
-				case !own && (mutexes[sel.Sel.Name] || fields[sel.Sel.Name]):
+				case !own && (mutexes[sel.Sel.Name] || fields[sel.Sel.Name]) &&
+					(mentions || !declaredElsewhere[sel.Sel.Name]):
 					res = append(res, fmt.Sprintf("field %s selected in %s (%s)", sel.Sel.Name, fd.Name.Name, n))
 				case !inside && touches[sel.Sel.Name] && !entry[sel.Sel.Name] && decls[sel.Sel.Name] != nil:
 					res = append(res, fmt.Sprintf("helper %s referenced in %s (%s)", sel.Sel.Name, fd.Name.Name, n))
